@@ -42,8 +42,8 @@ theorem callEntryE_zero (m : ℕ) (F : ℚ) (hF0 : 0 ≤ F) (hF1 : F < 1) (af t 
 theorem nocall_unit (c : List ℚ) (hc : ∀ v ∈ c, 0 ≤ v) (hs : lsum c ≤ 1) (N : ℕ) (F : ℚ) (hF0 : 0 ≤ F) (hF1 : F < 1)
     (af : ℕ) (haf : af ≤ 2 * N) : 0 ≤ nocall c (2 * N) F af ∧ nocall c (2 * N) F af ≤ 1 := by
   simp only [nocall, half_two_mul]
-  exact pw_mixture_bounds af N haf F hF0 hF1 (fun g pr => nocallPart c g pr)
-    (fun g _ pr hpr => nocallPart_bounds c hc hs g pr hpr)
+  exact pw_mixture_bounds af N haf F hF0 hF1 (fun g pr => nocallPart c af g pr)
+    (fun g _ pr hpr => nocallPart_bounds c hc hs af g pr hpr)
 
 /-- entries of the tabulated per-axis kernel -/
 theorem mkAxis_K_eq (c : List ℚ) (nseq nsub : ℕ) (F peAll : ℚ) (i j : ℕ) (hi : i < nseq + 1) (hj : j < nsub + 1) :
